@@ -86,10 +86,12 @@ const (
 	kEncoders
 	kSort
 	kGenerators
+	kEditor
+	kCodecs
 	numKinds
 )
 
-var kindNames = []string{"shard", "labeller", "iterator", "comb", "dawg-query", "dawg-build", "observer", "clique-producer", "clique-consumer", "sets", "dsu", "tsp", "fork-half", "encoders", "sort", "generators"}
+var kindNames = []string{"shard", "labeller", "iterator", "comb", "dawg-query", "dawg-build", "observer", "clique-producer", "clique-consumer", "sets", "dsu", "tsp", "fork-half", "encoders", "sort", "generators", "editor", "codecs"}
 
 type spec struct {
 	kind int
@@ -708,6 +710,8 @@ func makeTask(s spec, w *world, rec *Rec) func() {
 				rec.ints("set", s)
 			}
 			rec.ints("small", ds.SmallestRep())
+			rec.ints("roots", ds.Roots())
+			rec.add(ds.String())
 		}
 	case kTSP:
 		n, seed := p[0], p[1]
@@ -755,15 +759,147 @@ func makeTask(s spec, w *world, rec *Rec) func() {
 				for i := range xs {
 					xs[i] = int(r.Next() % 50)
 				}
+				if rep == 2 && n >= 40 {
+					xs = gutil.QuicksortKiller(n * 8) // reaches the heapsort fallback
+				}
 				ints.Sort(xs)
 				rec.ints("sorted", xs)
 				rec.num("max", ints.Max(append(xs, 0)))
 				rec.num("sum", ints.Sum(xs))
 			}
 		}
+	case kEditor:
+		seed, count, sparse := p[0], p[1], p[2]
+		return func() {
+			r := rng(seed)
+			var g graph.EditableGraph
+			mg := randomModel(3+int(r.Next()%5), seed, 3)
+			if sparse == 1 {
+				g = sparseOf(mg)
+			} else {
+				g = denseOf(mg)
+			}
+			for i := 0; i < count; i++ {
+				n := g.N()
+				switch r.Next() % 8 {
+				case 0:
+					if n < 10 {
+						var nb []int
+						for v := 0; v < n; v++ {
+							if r.Next()%2 == 0 {
+								nb = append(nb, v)
+							}
+						}
+						g.AddVertex(nb)
+					}
+				case 1:
+					if n > 1 {
+						g.RemoveVertex(int(r.Next() % uint64(n)))
+					}
+				case 2:
+					if n > 0 {
+						g.AddEdge(int(r.Next()%uint64(n)), int(r.Next()%uint64(n)))
+					}
+				case 3:
+					if n > 0 {
+						g.RemoveEdge(int(r.Next()%uint64(n)), int(r.Next()%uint64(n)))
+					}
+				case 4:
+					g = g.Copy()
+				case 5:
+					V := []int{}
+					for v := n - 1; v >= 0; v-- {
+						if r.Next()%3 != 0 {
+							V = append(V, v)
+						}
+					}
+					g = g.InducedSubgraph(V)
+				case 6:
+					if n >= 2 && n < 10 {
+						i, j := int(r.Next()%uint64(n)), int(r.Next()%uint64(n))
+						if i != j && g.IsEdge(i, j) {
+							graph.SplitEdge(g, i, j)
+						}
+					}
+				default:
+					if n >= 3 {
+						i, j := int(r.Next()%uint64(n)), int(r.Next()%uint64(n))
+						if i != j {
+							graph.Contract(g, i, j)
+						}
+					}
+				}
+				rec.add(g6of(g))
+				rec.ints("deg", g.Degrees())
+			}
+			rec.ints("cycles", graph.NumberOfCycles(g))
+		}
+	case kCodecs:
+		seed, n := p[0], p[1]
+		return func() {
+			mg := randomModel(n, seed, 3)
+			d := denseOf(mg)
+			s6 := graph.Sparse6Encode(d)
+			sp, err := graph.Sparse6Decode(s6)
+			rec.boolean("s6err", err != nil)
+			if err == nil {
+				rec.add(g6of(sp))
+			}
+			mc := append(graph.MulticodeEncode(d), graph.MulticodeEncode(graph.Cycle(4))...)
+			func() {
+				defer func() {
+					if recover() != nil {
+						rec.add("multicode panic")
+					}
+				}()
+				rec.add(g6of(graph.MulticodeDecode(graph.MulticodeEncode(graph.Path(n + 1)))))
+				for _, h := range graph.MulticodeDecodeMultiple(mc) {
+					rec.add(g6of(h))
+				}
+			}()
+			tr := graph.RandomTree(n+2, int64(seed))
+			code := graph.PruferEncode(tr)
+			rec.ints("prufer", code)
+			rec.add(g6of(graph.PruferDecode(code)))
+			rec.add(graph.AdjacencyMatrixEncode(d))
+			dw, _ := dawg.New(wordsOf(10+n, seed))
+			enc, _ := dw.GobEncode()
+			var back dawg.Dawg
+			rec.boolean("gobdecode", back.GobDecode(enc) == nil)
+			rec.num("words", back.NumberOfWords())
+			it := search.All(4, 0, 1)
+			it.Next()
+			it.Next()
+			var buf bytes.Buffer
+			it.Save(&buf)
+			it2 := search.Load(&buf, never, never)
+			for it2.Next() {
+				rec.add(g6of(it2.Value()))
+			}
+			ok, col := graph.IsKColorable(d, 3)
+			rec.boolean("3col", ok)
+			if ok {
+				rec.boolean("proper", graph.IsProperColouring(d, col))
+			}
+			if n > 0 {
+				rec.ints("comp", graph.ConnectedComponent(d, 0))
+			}
+			a, b := []int{1, 2, 3}, []int{n, seed % 7, 5}
+			ints.Add(a, b)
+			rec.ints("add", a)
+		}
 	default: // kGenerators
 		seed, n := p[0], p[1]
 		return func() {
+			rec.add(g6of(graph.KneserGraph(4+n%2, 2)))
+			rec.add(g6of(graph.BipartiteKneserGraph(4, 1+n%2)))
+			rec.add(g6of(graph.HypercubeGraph(1 + n%3)))
+			rec.add(g6of(graph.FoldedHypercubeGraph(2 + n%2)))
+			rec.add(g6of(graph.RookGraph(2, 2+n%2)))
+			rec.add(g6of(graph.FlowerSnark(3)))
+			rec.add(g6of(graph.GeneralisedPetersenGraph(4+n%2, 1)))
+			rec.add(g6of(graph.FriendshipGraph(1 + n%3)))
+			rec.add(g6of(graph.CirculantBipartiteGraph(3, 3+n%2, 0, 1)))
 			rec.add(g6of(graph.RandomGraph(n, 0.4, int64(seed))))
 			rec.add(g6of(graph.RandomTree(n+2, int64(seed))))
 			rec.add(g6of(graph.Cycle(n + 3)))
@@ -857,9 +993,9 @@ func drawScenario(r *driver.Run) scenario {
 	case 6:
 		k := t.Range(2, 4)
 		for i := 0; i < k; i++ {
-			sc.specs = append(sc.specs, drawSpec(r, []int{kSets, kDSU, kTSP, kSort}[t.Draw(4)], thorough))
+			sc.specs = append(sc.specs, drawSpec(r, []int{kSets, kDSU, kTSP, kSort, kEditor, kCodecs, kGenerators}[t.Draw(7)], thorough))
 		}
-		sc.name = "sets/dsu/tsp/sort"
+		sc.name = "sets/dsu/tsp/sort/editors/codecs"
 	case 7: // checkpoint fork: original and restored clone as two tasks
 		sc.wp.forkN = t.Range(3, 6)
 		sc.wp.forkM = t.Range(1, 3)
@@ -907,6 +1043,10 @@ func drawSpec(r *driver.Run, k int, thorough bool) spec {
 		s.p = [6]int{t.Draw(1000), t.Range(0, 60)}
 	case kGenerators:
 		s.p = [6]int{t.Draw(1000), t.Range(1, 5)}
+	case kEditor:
+		s.p = [6]int{t.Draw(1000), t.Range(1, 25), t.Draw(2)}
+	case kCodecs:
+		s.p = [6]int{t.Draw(1000), t.Range(1, 8)}
 	}
 	return s
 }
@@ -1130,6 +1270,7 @@ func runOne(r *driver.Run) {
 	r.Count("steps", stats.Yields)
 	r.Count("yields", stats.Yields)
 	r.Count("switches", stats.Switches)
+	r.Count("fault.preemption(context switch decided by the simulator)", stats.Switches)
 	r.Count("tasks", int64(nt))
 	r.Count("policy."+polName, 1)
 	r.Count("scenario."+sc.name[:min(len(sc.name), 12)], 1)
@@ -1228,7 +1369,7 @@ func main() {
 		Property: "C19",
 		Engine:   "sched",
 		Level:    "exploration",
-		Rule: "a case is one seeded (scenario, schedule) pair: 2-6 tasks drawn from a catalogue of 16 task kinds in 9 scenarios (all shards of one search; labellers with own storage; iterators+comb; Dawg queries with own searchers on one shared Dawg next to builders; observers and read-only algorithms on one shared dense/sparse/complement/induced-view graph; AllMaximalCliques producer/consumer pairs over channels of capacity 1-3; sets/dsu/tsp/sort; a checkpoint-restored iterator next to its original; mixed), run as goroutines of which exactly one holds the baton; a seeded policy (coarse quanta, uniform quanta in [1,2Q] for Q in {2,10,100,1000}, <= 5 preemptions at exact yield ordinals, preemption at the j-th visit of a chosen site) decides every context switch at the generated yield points. " +
+		Rule: "a case is one seeded (scenario, schedule) pair: 2-6 tasks drawn from a catalogue of 18 task kinds in 9 scenarios (all shards of one search; labellers with own storage; iterators+comb; Dawg queries with own searchers on one shared Dawg next to builders; observers and read-only algorithms on one shared dense/sparse/complement/induced-view graph; AllMaximalCliques producer/consumer pairs over channels of capacity 1-3; sets/dsu/tsp/sort/graph editors/codecs/generators on own values; a checkpoint-restored iterator next to its original; mixed), run as goroutines of which exactly one holds the baton; a seeded policy (coarse quanta, uniform quanta in [1,2Q] for Q in {2,10,100,1000}, <= 5 preemptions at exact yield ordinals, preemption at the j-th visit of a chosen site) decides every context switch at the generated yield points. " +
 			"Checked: each task's result equals its result run alone on freshly built identical values; the race detector (blind to the baton hand-over, history_size=7) reports nothing; shared values are unchanged; a complete shard set still partitions the classes. Non-trivial = at least 2 context switches; distinct = distinct hashes of the (task, site) sequence at switch points together with the results (distinct interleavings).",
 		Assumptions: []string{
 			"execution is serialised by the simulator: effects of truly parallel execution that do not need a data race (weak memory) are out of reach; the race-detector clause covers them to the extent that they need a race",
@@ -1242,7 +1383,7 @@ func main() {
 			if tier == "thorough" {
 				return driver.Plan{Random: 150000, WallLimit: 40 * time.Minute}
 			}
-			return driver.Plan{Random: 6000, WallLimit: 6 * time.Minute}
+			return driver.Plan{Random: 20000, WallLimit: 6 * time.Minute}
 		},
 		RunOne:   runOne,
 		OwnHook:  true,
@@ -1275,6 +1416,18 @@ func main() {
 					}
 				}
 			}
+			unexec := map[string]bool{}
+			for _, si := range sites {
+				if _, ok := c["siteseen."+strconv.Itoa(si.ID)]; !ok {
+					unexec[si.Func] = true
+				}
+			}
+			var ul []string
+			for f := range unexec {
+				ul = append(ul, f)
+			}
+			sort.Strings(ul)
+			cov["functions_with_yield_sites_never_executed_concurrently"] = ul
 			cov["yield_sites_total"] = len(sites)
 			cov["yield_sites_executed_in_concurrent_passes"] = ns
 			cov["yield_sites_used_as_context_switch_point"] = np
